@@ -140,36 +140,7 @@ func runC08(c *report.Ctx) {
 			}
 		}
 	}
-	// no dependence on the selected wallet in background code
-	cur := fn(c, pkgKeystore, "KeystoreManager", "CurrentKeystore")
-	gr, _ := quitWgGoroutines(c)
-	bgReached, bgParent := p.ReachNil(gr, an.ReachOpts{SkipEdge: func(from *ssa.Function, e an.Edge) bool { return e.Kind == "go" }})
-	nbg := 0
-	for f := range bgReached {
-		if !p.InModule(f) || f.Blocks == nil {
-			continue
-		}
-		nbg++
-		an.Instrs(f, func(in ssa.Instruction) {
-			cc := an.CallOf(in)
-			if cc == nil || cc.StaticCallee() == nil {
-				return
-			}
-			cal := cc.StaticCallee()
-			pk := an.FuncPkg(cal)
-			if pk == nil || pk.Path() != pkgKeystore {
-				return
-			}
-			if cal == cur || strings.HasSuffix(cal.Name(), "InCurrent") || fieldReadsCurrent(p, cal) {
-				// only calls actually reachable under nil-specialisation count (ReachNil visited this function)
-				if !bgReached[cal] {
-					return
-				}
-				c.Fail(sk(f)+":uses-selected-wallet:"+cal.Name(), "code reachable from the follower/worker goroutines consults the API's currently selected wallet ("+sk(cal)+"): whether another wallet owns an output, or which wallet a block belongs to, must not depend on what a client selected", posOf(c, in), p.Witness(bgParent, f)...)
-			}
-		})
-	}
-	c.OK("background-code:selected-wallet-free", itoa(nbg)+" functions reachable from handle/worker examined", "")
+	ruleBackgroundSelectedWalletFree(c)
 
 	// ---- (3) gates ----------------------------------------------------------------------------------------------
 	c.Rule("removal-gates", "removal needs the wallet's passphrase and a ready wallet", 2)
@@ -340,4 +311,40 @@ func fieldReadsCurrent(p *an.Prog, f *ssa.Function) bool {
 		return false
 	}
 	return len(fieldReads(f, km, "currentKeystore")) > 0
+}
+
+// ruleBackgroundSelectedWalletFree (C08 within shared-tx-survives, C01 as a rule of its own): nothing the follower or the
+// worker does depends on which wallet a client happens to have selected.
+func ruleBackgroundSelectedWalletFree(c *report.Ctx) {
+	p := c.P
+	// no dependence on the selected wallet in background code
+	cur := fn(c, pkgKeystore, "KeystoreManager", "CurrentKeystore")
+	gr, _ := quitWgGoroutines(c)
+	bgReached, bgParent := p.ReachNil(gr, an.ReachOpts{SkipEdge: func(from *ssa.Function, e an.Edge) bool { return e.Kind == "go" }})
+	nbg := 0
+	for f := range bgReached {
+		if !p.InModule(f) || f.Blocks == nil {
+			continue
+		}
+		nbg++
+		an.Instrs(f, func(in ssa.Instruction) {
+			cc := an.CallOf(in)
+			if cc == nil || cc.StaticCallee() == nil {
+				return
+			}
+			cal := cc.StaticCallee()
+			pk := an.FuncPkg(cal)
+			if pk == nil || pk.Path() != pkgKeystore {
+				return
+			}
+			if cal == cur || strings.HasSuffix(cal.Name(), "InCurrent") || fieldReadsCurrent(p, cal) {
+				// only calls actually reachable under nil-specialisation count (ReachNil visited this function)
+				if !bgReached[cal] {
+					return
+				}
+				c.Fail(sk(f)+":uses-selected-wallet:"+cal.Name(), "code reachable from the follower/worker goroutines consults the API's currently selected wallet ("+sk(cal)+"): whether another wallet owns an output, or which wallet a block belongs to, must not depend on what a client selected", posOf(c, in), p.Witness(bgParent, f)...)
+			}
+		})
+	}
+	c.OK("background-code:selected-wallet-free", itoa(nbg)+" functions reachable from handle/worker examined", "")
 }
